@@ -62,6 +62,23 @@ DRIVER = "Drivers/C16.lean"
 
 GEN_REL = "QclibModel/Gen/Validate.lean"
 
+# Generator-quality audit (tools/branch_audit.py C16): what the malformed-input stream does not reach in the anchored
+# files, and why.  Every `raise` of the validators the property names IS reached (and tied).
+UNREACHED_JUSTIFIED = {
+    "qclib/isometry.py:337-353 cnot_count (exact path), 356-374 _cnot_count_estimate schemes, _cnot_count_estimate_ccd/knill":
+        "CNOT counting, no validation involved: C10",
+    "qclib/unitary.py:221-296 cnot_count, _cnot_count_estimate, _cnot_count_iso, _cnot_count_iso_qsd": "CNOT counting: C10",
+    "qclib/unitary.py:212->214 _closest_unitary": "degenerate spectrum inside the synthesis of a VALID unitary (after the "
+                                                  "guard): C02",
+    "qclib/unitary.py:381-416 _apply_mcxs arcs": "QR synthesis of a VALID unitary, data-dependent wire patterns: C02",
+    "qclib/gates/util.py:19-23 apply_ctrl_state '0' branch": "control patterns of the controlled gates (valid input): C04 / C05",
+    "qclib/gates/util.py:36 u2_to_su2": "Mcg(up_to_diagonal=True) on a valid U(2): C04",
+    "qclib/state_preparation/mixed.py (whole class)": "MixedInitialize is not among the entry points of the property's "
+                                                      "sentence; its probability validation (lines 74-81) is C14's property "
+                                                      "and every raise there is probed by tools/props/c14.py; see the "
+                                                      "side-probe note about ensemble members",
+}
+
 
 # ==================================================================================================
 # 1. extractor: Python AST -> Lean data
@@ -921,6 +938,14 @@ def dense_stream(ctx, nprng):
         out.append(("real-signed", _renorm(_unit(n, nprng, real=True))))
         out.append(("noisy1e-13", _renorm(base) * (1 + 1e-13)))
         out.append(("list", ("LIST", _renorm(_unit(n, nprng)))))
+        # valid vectors whose entries are numpy scalars that are NOT Python int/float/complex (np.int64, np.float32):
+        # the second branch of Initialize.validate_parameter; the squared amplitudes sum to 1 exactly in their own type
+        out.append(("basis-int64", e.astype(np.int64)))
+        cnt = 4 ** int(math.log(n, 4) + 1e-9)
+        f32 = np.zeros(n, dtype=np.float32)
+        f32[:cnt] = np.float32(1.0 / math.sqrt(cnt))
+        out.append(("uniform-float32", f32))
+        out.append(("ones-int64-unnormalised", np.ones(n, dtype=np.int64)))
     return out
 
 
@@ -1189,6 +1214,8 @@ def check_case(ctx, callers, name, variant, label, A, tie=True):
     rep = {"entry": name, "variant": variant, "label": label, "as_list": as_list, "input": _payload(arr),
            "classification": cls, "observed": dec, "detail": det}
     ctx.count(f"{kind}:{cls}:{dec.split()[0]}")
+    if kind == "dense" and not as_list and arr.dtype not in (np.dtype(float), np.dtype(complex)):
+        ctx.count(f"branch:dense vector dtype {arr.dtype}:{cls.split(':')[0]}:{dec.split()[0]}")
     late = det.get("stage") in ("definition-raised", "construction-raised")
     if cls.startswith("malformed"):
         if dec == "accept" and det.get("stage") == "construction-raised":
@@ -1325,6 +1352,20 @@ def side_probes(ctx):
         except Exception as e:                       # harness-side problem: not a finding
             notes.append(f"side probes skipped: {type(e).__name__}: {e}")
         try:
+            from qclib.state_preparation.mixed import MixedInitialize
+            try:
+                g = MixedInitialize([np.array([1.0, 0.0]), np.array([2.0, 0.0])])
+                try:
+                    g.definition
+                    notes.append("outside-scope: MixedInitialize([[1,0],[2,0]]) (second state has norm 2) is accepted and a definition is built")
+                except Exception as e:
+                    notes.append("outside-scope: MixedInitialize([[1,0],[2,0]]) (second state has norm 2): the constructor returns a gate "
+                                 f"(only the first ensemble member is validated); building .definition raises {type(e).__name__}")
+            except Exception as e:
+                notes.append(f"outside-scope: MixedInitialize([[1,0],[2,0]]) raises {type(e).__name__} in the constructor")
+        except Exception as e:
+            notes.append(f"MixedInitialize side probe skipped: {type(e).__name__}: {e}")
+        try:
             from qclib.gates.ldmcsu import Ldmcsu
             from qiskit.quantum_info import Operator
             m = np.diag([1.0, 1j])
@@ -1335,6 +1376,40 @@ def side_probes(ctx):
         except Exception as e:
             notes.append(f"Ldmcsu(diag(1,i),3): {type(e).__name__}: {str(e)[:80]}")
     ctx.notes.extend(notes)
+
+
+def non_numeric_probe(ctx):
+    """Entries that pass the length and norm tests (abs, ** 2 and sum work on them) but are neither Python numbers nor
+    numpy scalars reach the final `raise TypeError` of Initialize.validate_parameter.  The property's sentence does not
+    list such inputs, so the observation is recorded (counter + note), not judged: what must hold, and is judged, is that
+    no exception OTHER than TypeError / ValueError escapes and that an accepting constructor returns a gate of the right width."""
+    from fractions import Fraction
+    callers = _entry_callers(None)
+    vec = [Fraction(3, 5), Fraction(0), Fraction(4, 5), Fraction(0)]
+    seen = {}
+    for name, variants in callers.items():
+        if KIND_OF[name] != "dense":
+            continue
+        short = _short(name)
+        with warnings.catch_warnings():
+            warnings.simplefilter("ignore")
+            try:
+                g = variants[0][1](list(vec))
+                seen[short] = f"accepted (num_qubits={getattr(g, 'num_qubits', '?')})"
+                if getattr(g, "num_qubits", None) not in (2, 3):        # 3: black-box carries one extra qubit
+                    ctx.fail(f"non-numeric:{short}:wrong-width", f"{short}([3/5, 0, 4/5, 0] as Fractions) returned a gate on "
+                             f"{getattr(g, 'num_qubits', '?')} qubits", {"probe": "non-numeric", "entry": name})
+                else:
+                    ctx.ok(f"non-numeric:{short}:accepted", nontrivial=False)
+            except (TypeError, ValueError) as e:
+                seen[short] = f"{type(e).__name__}"
+                ctx.count("branch:validate_parameter non-numeric entry -> " + type(e).__name__)
+                ctx.ok(f"non-numeric:{short}:rejected", nontrivial=False)
+            except Exception as e:
+                ctx.fail(f"non-numeric:{short}:{type(e).__name__}", f"{short}(vector of Fractions) raised {type(e).__name__}: "
+                         f"{str(e)[:120]} (neither TypeError nor ValueError)", {"probe": "non-numeric", "entry": name})
+    ctx.notes.append("non-numeric entries (unit vector of fractions.Fraction), outside the property's sentence, observed: "
+                     + "; ".join(f"{k}: {v}" for k, v in sorted(seen.items())))
 
 
 def _order_failures(ctx):
@@ -1354,6 +1429,7 @@ def run(ctx):
     table_tie(ctx)
     run_stream(ctx, tie=True)
     side_probes(ctx)
+    non_numeric_probe(ctx)
     _order_failures(ctx)
     ctx.notes.append("excluded bands: |sum|a|^2-1| in [3.3e-11, 3e-10]; Gram deviation / (1e-8 + 1e-5*delta_ij) in [1/3, 3]; |det-1| in [3.3e-10, 3e-9] (check_su2)")
 
@@ -1379,6 +1455,9 @@ def search(ctx, hints):
 
 def replay(ctx, payload):
     r = payload["replay"]
+    if r.get("probe") == "non-numeric":
+        non_numeric_probe(ctx)
+        return
     callers = _entry_callers(None)
     A = _from_payload(r["input"])
     if r.get("as_list"):
